@@ -30,7 +30,29 @@ func TestMain(m *testing.M) {
 type step struct {
 	Client int      `json:"client"`
 	Case   api.Case `json:"case"`
-	Reply  int      `json:"reply"` // 0 valid all-zero reply, 1 no reply (timeout), 2 valid reply with 0xff noise payload
+	Reply  int      `json:"reply"` // 0 valid all-zero reply, 1 no reply (timeout), 2 valid reply with 0xff noise payload, 3 mirror (below)
+}
+
+// read-modify-write: the application reads a record and writes the same record back. Reply kind 3 makes the reply to a 'get'
+// carry exactly the values that the NEXT step (the matching 'set' on the same client and controller) is going to send: the
+// set request must still go out, once, whatever the client has learnt from earlier replies.
+var mirrorOf = map[string]string{"PutCard": "GetCardByID", "SetTimeProfile": "GetTimeProfile", "SetListener": "GetListener", "SetDoorControlState": "GetDoorControlState",
+	"SetTime": "GetTime", "SetEventIndex": "GetEventIndex"}
+
+func mirrorReply(get api.Case, set api.Case) [][]byte {
+	l, ok := spec.Responses[get.Call.Op]
+	if !ok {
+		return nil
+	}
+	b := append([]byte(nil), spec.Request(set.Call)...)
+	b[1] = l.Code
+	switch set.Call.Op {
+	case "SetEventIndex":
+		for i := 12; i < 16; i++ {
+			b[i] = 0 // the magic word is not part of the reply
+		}
+	}
+	return [][]byte{b}
 }
 
 type history struct {
@@ -70,7 +92,16 @@ func genHistory(t *rapid.T) history {
 		if op != "GetDevices" {
 			serials = append(serials, cs.Call.Serial)
 		}
-		h.Steps = append(h.Steps, step{Client: rapid.IntRange(0, 1).Draw(t, "client"), Case: cs, Reply: rapid.IntRange(0, 2).Draw(t, "reply")})
+		client := rapid.IntRange(0, 1).Draw(t, "client")
+		if getOp, ok := mirrorOf[op]; ok && rapid.IntRange(0, 2).Draw(t, "read.first") == 0 {
+			get := gen.Call(t, getOp)
+			get.Call.Serial, get.Call.Card, get.Call.Profile, get.Call.Door = cs.Call.Serial, cs.Call.Card, cs.Call.Profile, cs.Call.Door
+			h.Steps = append(h.Steps, step{Client: client, Case: get, Reply: 3})
+			if rapid.Bool().Draw(t, "read.twice") {
+				h.Steps = append(h.Steps, step{Client: client, Case: get, Reply: 3})
+			}
+		}
+		h.Steps = append(h.Steps, step{Client: client, Case: cs, Reply: rapid.IntRange(0, 2).Draw(t, "reply")})
 	}
 	uniq := map[uint32]bool{}
 	var us []uint32
@@ -173,7 +204,22 @@ func checkHistoryZ(h history) *rp.Fail {
 		}
 		da.Reset()
 		db.Reset()
-		d.Reset(reply(s.Case, s.Reply)...)
+		if s.Reply == 3 {
+			// find the set step this get mirrors (the next step that is not the same get again)
+			var r [][]byte
+			for j := i + 1; j < len(h.Steps); j++ {
+				if h.Steps[j].Reply != 3 {
+					if mirrorOf[h.Steps[j].Case.Call.Op] == s.Case.Call.Op {
+						r = mirrorReply(s.Case, h.Steps[j].Case)
+						ev.Class("history/read-then-write-back-the-same-record", 1)
+					}
+					break
+				}
+			}
+			d.Reset(r...)
+		} else {
+			d.Reset(reply(s.Case, s.Reply)...)
+		}
 		var res api.Result
 		if s.Case.Call.Op == "GetDevices" {
 			func() {
@@ -209,7 +255,7 @@ func checkHistoryZ(h history) *rp.Fail {
 		if !bytes.Equal(got, want) {
 			return rp.Failf(site+"/request-bytes", "step %d: %s sent\n  %x\nprotocol encoding of this call is\n  %x\n  (first difference at offset %d)", i, s.Case.Call.Op, got, want, firstDiff(got, want))
 		}
-		if s.Reply != 1 && res.Err != nil {
+		if s.Reply != 1 && s.Reply != 3 && res.Err != nil {
 			return rp.Failf(site+"/accepted-call-failed", "step %d: %s failed although the controller answered with a well-formed reply: %v", i, s.Case.Call.Op, res.Err)
 		}
 	}
@@ -311,6 +357,7 @@ func props() []rp.Prop {
 	return []rp.Prop{
 		rp.P[history]{Name: "history", Checks: ev.Pick(12000, 2000000) / ev.Shards(), Gen: genHistory, Sweep: sweepBytes, Check: checkHistory},
 		rp.P[wireCase]{Name: "wire", Checks: ev.Pick(1200, 60000) / ev.Shards(), Gen: genWire, Check: checkWire},
+		rp.P[sameCase]{Name: "wire-concurrent", Checks: ev.Pick(60, 4000) / ev.Shards(), Gen: genSame, Check: checkSame},
 	}
 }
 
